@@ -27,11 +27,13 @@ install_demo() {
 run_demo() {
   if [ -f $SRC/demo.rs ]; then
     crate=$(install_demo)
-    (cd $WT && timeout 900 cargo test --offline -p $crate --test demo 2>&1 | tail -15)
-    return ${PIPESTATUS[0]}
+    (cd $WT && timeout 900 cargo test --offline -p $crate --test demo > /tmp/confirm_demo.out 2>&1); rc=$?
+    grep -E "^test |test result|panicked" /tmp/confirm_demo.out | head -30
+    return $rc
   elif [ -f $SRC/demo.sh ]; then
-    (cd $WT && cargo build --offline -q 2>&1 | tail -3; cd $SRC && WT=$WT timeout 900 bash ./demo.sh $WT 2>&1 | tail -15)
-    return ${PIPESTATUS[0]}
+    (cd $WT && cargo build --offline -q 2>&1 | tail -3; cd $SRC && WT=$WT timeout 900 bash ./demo.sh $WT > /tmp/confirm_demo.out 2>&1); rc=$?
+    tail -15 /tmp/confirm_demo.out
+    return $rc
   fi
   return 99
 }
@@ -47,8 +49,10 @@ run_demo >>$LOG 2>&1; MUT=$?
 echo "mutated demo exit=$MUT" >>$LOG
 rm -f $WT/pumpkin-solver/tests/demo.rs $WT/drcp-format/tests/demo.rs
 echo "== mutated test-suite" >>$LOG
-timeout 1500 cargo test --workspace --no-fail-fast --offline 2>&1 | grep -E "^test result|FAILED|failed|^test .* FAILED|panicked" | head -40 >>$LOG
-FAILS=$(grep -E "^test result" $LOG | awk '{f+=$6} END{print f+0}')
-PASSES=$(grep -E "^test result" $LOG | awk '{p+=$4} END{print p+0}')
+timeout 1500 cargo test --workspace --no-fail-fast --offline > /tmp/confirm_suite.out 2>&1
+grep -E "^test result|^test .* FAILED" /tmp/confirm_suite.out | head -40 >>$LOG
+FAILS=$(grep -E "^test result" /tmp/confirm_suite.out | awk '{f+=$6} END{print f+0}')
+PASSES=$(grep -E "^test result" /tmp/confirm_suite.out | awk '{p+=$4} END{print p+0}')
+FAILED_NAMES=$(grep -E "^test .* FAILED" /tmp/confirm_suite.out | awk '{print $2}' | sort -u | tr '\n' ',')
 git checkout -q -- . ; git clean -fdq -e target
-echo "RESULT build=$BUILD clean_demo=$CLEAN mutated_demo=$MUT suite_passed=$PASSES suite_failed=$FAILS" | tee -a $LOG
+echo "RESULT build=$BUILD clean_demo_exit=$CLEAN mutated_demo_exit=$MUT suite_passed=$PASSES suite_failed=$FAILS failed_tests=$FAILED_NAMES (baseline: 690 passed, 1 failed: prime4294967297)" | tee -a $LOG
